@@ -246,7 +246,7 @@ def summarise(records, tier, seed):
         "evaluations": ag["evaluations"],
         "distinct_nontrivial": len(ag["hashes"]),
         "rule": "wide tie-rich model, repository corpus (incl. the 45-52 state models), random DAG models; each generated in fresh interpreters under PYTHONHASHSEED in 0..7 (quick) / 0..31 + 8 random (thorough) "
-        "for numpy(+schemes, repeated twice), C, numpy with remove_unused and jax; plus fresh interpreters that first execute a random history of other load/generate/get_scheme/simplify calls; "
+        "for numpy(+schemes, repeated twice), C, numpy with remove_unused and jax; plus fresh interpreters that first execute a random history of other load/generate (other texts, edited versions and the requested text itself, with other shape / remove_unused / back-end options) / get_scheme / simplify / remove_singularities calls; plus sub-models (component.to_ode(), model - component) whose missing variables differ only in case; "
         "evaluation = one fresh process; non-trivial = >= 4 seeds and >= 2 distinct dependency-set iteration-order vectors actually observed; distinct by structural hash",
         "samples": C.pick_samples(records, 5),
         "per_class_cases": ag["classes"],
